@@ -200,6 +200,17 @@ def run_contract(repo, c: FnContract) -> FnResult:
     st.ghost.setdefault("io_calls", z3.IntVal(0))
     canaries = []
     try:
+        # the contract is verified for the undecorated body: a caching decorator makes the result depend on the call history
+        # (C08) and hands out shared stateful objects; any other wrapper is outside the contract language (undecided)
+        allowed = {"property", "classmethod", "staticmethod"} | set(getattr(c, "allowed_decorators", ()))
+        for d in getattr(node, "decorator_list", []):
+            dname = ast.unparse(d).split("(")[0].split(".")[-1]
+            if dname in allowed:
+                continue
+            if dname in ("lru_cache", "cache", "cached_property", "memoize", "memoized"):
+                eng.ob("frame.no_caching_decorator", st, z3.BoolVal(False), node, tag=dname)
+            else:
+                raise Unsupported(f"decorator @{ast.unparse(d)[:40]} on {c.qual} is outside the contract language")
         outs = eng.run(node.body, st)
         n_ret = 0
         for e, out in outs:
@@ -219,8 +230,11 @@ def run_contract(repo, c: FnContract) -> FnResult:
                 exc = out[1]
                 if c.allow_any_exception:
                     continue
-                if exc in c.raises:
-                    cond = c.raises[exc]
+                from .engine import EXC_BASES
+
+                exc_key = exc if exc in c.raises else next((b_ for b_ in EXC_BASES.get(exc, ()) if b_ in c.raises), None)
+                if exc_key is not None:
+                    cond = c.raises[exc_key]
                     if cond is not None:
                         eng.ob(f"xpost.{exc}", e, cond(eng, e), node, tag="")
                 else:
